@@ -6,7 +6,7 @@
    [transpose_arr n f] is the exchanged-argument array on a square grid; [hom_rate_Q0] is the executable rational instance
    at zero delay that the check runs on the arrays handed to the Rust function. *)
 From Coq Require Import Reals QArith Lra List.
-From SpdVerif Require Import Model.FinSum Model.Hom Proofs.FinSum_lemmas Proofs.Cx_lemmas Proofs.C09_range Proofs.C09_dip
+From SpdVerif Require Import Model.FinSum Model.Hom Model.Hom2 Model.C10_Pyth Proofs.C10_pyth Model.C09_Total Proofs.C09_total Proofs.FinSum_lemmas Proofs.Cx_lemmas Proofs.C09_range Proofs.C09_dip
   Proofs.C09_struct Proofs.C09_exec Gen.HomSrc Proofs.C09_src.
 Local Open Scope R_scope.
 
@@ -88,6 +88,59 @@ Theorem C09_source_range : forall n g f gs tau,
   0 <= src_hom_rate g f gs tau None <= 1.
 Proof. exact src_hom_rate_range. Qed.
 
+(* ---- the code paths outside the main model (Model/C09_Total.v): slices of any length, zero norm, empty delay list *)
+(* hom_rate panics (slice index out of bounds) exactly when one of the two slices is shorter than the grid *)
+Theorem C09_total_panic_iff : forall g f gs tau norm,
+  hom_rate_total g f gs tau norm = HomPanic <-> (length f < grid_len g)%nat \/ (length gs < grid_len g)%nat.
+Proof. exact hom_total_panic_iff. Qed.
+
+(* with the default norm and slices at least as long as the grid: NaN exactly for an all-zero first slice (0/0), never an
+   infinity, otherwise 1/2 (1 - sum / (norm of the WHOLE first slice)) *)
+Theorem C09_total_default_norm : forall g f gs tau,
+  (grid_len g <= length f)%nat -> (grid_len g <= length gs)%nat ->
+  (hom_rate_total g f gs tau None = HomNaN <-> all_zero f) /\
+  hom_rate_total g f gs tau None <> HomInf /\
+  (~ all_zero f ->
+   hom_rate_total g f gs tau None =
+     HomVal (1 / 2 * (1 - hom_sum ROps (grid_len g) (arr (0, 0) f) (arr (0, 0) gs) (hom_phase g tau) / jsi_norm ROps (length f) (arr (0, 0) f)))).
+Proof. exact hom_total_default_norm. Qed.
+
+(* slices of exactly the grid's length, first slice not all zero: the value of the model the theorems above are about *)
+Theorem C09_total_is_model : forall g f gs tau,
+  length f = grid_len g -> length gs = grid_len g -> ~ all_zero f ->
+  hom_rate_total g f gs tau None = HomVal (hom_rate g (arr (0, 0) f) (arr (0, 0) gs) tau None).
+Proof. exact hom_total_is_model. Qed.
+
+Theorem C09_total_zero_norm : forall g f gs tau,
+  (grid_len g <= length f)%nat -> (grid_len g <= length gs)%nat ->
+  let result := hom_sum ROps (grid_len g) (arr (0, 0) f) (arr (0, 0) gs) (hom_phase g tau) in
+  (result = 0 -> hom_rate_total g f gs tau (Some 0) = HomNaN) /\ (result <> 0 -> hom_rate_total g f gs tau (Some 0) = HomInf).
+Proof. exact hom_total_zero_norm. Qed.
+
+(* series: an empty delay list never panics (even on short slices); a non-empty one panics exactly when a slice is short *)
+Theorem C09_series_total_cases : forall g f gs taus,
+  (taus = nil -> hom_rate_series_total g f gs taus = SeriesOk nil) /\
+  (taus <> nil ->
+     (hom_rate_series_total g f gs taus = SeriesPanic <-> (length f < grid_len g)%nat \/ (length gs < grid_len g)%nat) /\
+     ((grid_len g <= length f)%nat -> (grid_len g <= length gs)%nat ->
+      hom_rate_series_total g f gs taus
+      = SeriesOk (map (fun tau => hom_rate_total g f gs tau (Some (jsi_norm ROps (length f) (arr (0, 0) f)))) taus))).
+Proof. exact series_total_cases. Qed.
+
+Theorem C09_series_total_is_model : forall g f gs taus,
+  length f = grid_len g -> length gs = grid_len g -> ~ all_zero f -> taus <> nil ->
+  hom_rate_series_total g f gs taus = SeriesOk (map HomVal (hom_rate_series g (arr (0, 0) f) (arr (0, 0) gs) taus)).
+Proof. exact series_total_is_model. Qed.
+
+(* the non-zero-delay twin: arithmetic axes (signal x0 + s h, idler x0 + k h + r i h), delay m0 atan(4/3) / h *)
+Theorem C09_pyth_twin : forall (n : nat) (x0 h : R) (k r m0 : Z),
+  (1 < n)%nat -> h <> 0 ->
+  forall f gs : list (cx Q),
+  jsi_norm ROps (n * n) (RC f) <> 0 ->
+  Q2R (hom_rate_Qpyth n f gs m0 k r) =
+  hom_rate (axes_grid (pyth_ls n x0 h) (pyth_li n x0 h k r) n) (RC f) (RC gs) (pyth_delay m0 h) None.
+Proof. exact hom_rate_Qpyth_correct. Qed.
+
 (* ---- non-vacuity *)
 Example C09_nonvacuous_grid : square_sym 3 (sym_grid 3 1 2).
 Proof. repeat split. Qed.
@@ -113,5 +166,12 @@ Print Assumptions C09_setup_range.
 Print Assumptions C09_source_is_model.
 Print Assumptions C09_source_wrappers.
 Print Assumptions C09_source_range.
+Print Assumptions C09_total_panic_iff.
+Print Assumptions C09_total_default_norm.
+Print Assumptions C09_total_is_model.
+Print Assumptions C09_total_zero_norm.
+Print Assumptions C09_series_total_cases.
+Print Assumptions C09_series_total_is_model.
+Print Assumptions C09_pyth_twin.
 Print Assumptions C09_exec_twin.
 Print Assumptions C09_exec_twin_normed.
